@@ -193,3 +193,10 @@ def lockwait(rng, frames, **over):
     p["loss"] = rng.choice([0.0, 0.0, 0.05, 0.2])
     p["p_pause"] = 0.0
     return p
+
+
+def with_stats(rng, frames, **over):
+    """General runs in which network_stats() is queried at random points (also before enough data exists)."""
+    p = general(rng, frames, npeers=over.pop("npeers", 2), spectators=rng.choice([0, 1]), **over)
+    p["p_stats"] = rng.choice([0.05, 0.2])
+    return p
